@@ -565,20 +565,22 @@ pub fn cells(tier: Tier) -> Vec<CellPlan> {
     }
     // The relationship graph across a server restart: relations that existed before the stop
     // still bind their entities together in the next session.
-    {
+    for &max in &[14usize, 26] {
         use crate::events::*;
         let mut cfg = Cfg::default();
         cfg.events = true;
         cfg.with_child = true;
         cfg.sync_rel = true;
-        // (one entity's mutation fits into a message, two do not)
-        cfg.clients = vec![14];
+        cfg.with_owner = true;
+        // (14: one entity fits, two do not - a pair that lost its relation is split;
+        //  26: a pair fits, two pairs do not - pairs that wrongly stay related exceed the maximum)
+        cfg.clients = vec![max];
         let c = EvCell {
-            name: "c10-graph-restart".into(),
+            name: format!("c10-graph-restart-{max}"),
             property: "C10",
             cfg,
             connect_at_start: vec![0],
-            init: vec![Op::Spawn(0, cells::M_A), Op::Spawn(1, cells::M_A), Op::Spawn(2, cells::M_A), Op::SetParent(1, 0)],
+            init: vec![Op::Spawn(0, cells::M_A), Op::Spawn(1, cells::M_A), Op::Spawn(2, cells::M_A), Op::Spawn(3, cells::M_A), Op::SetParent(1, 0), Op::SetOwner(3, 2)],
             alphabet: vec![
                 EvOp::Nop,
                 EvOp::StopServer,
@@ -586,7 +588,8 @@ pub fn cells(tier: Tier) -> Vec<CellPlan> {
                 EvOp::World(Op::Mut(0, TA)),
                 EvOp::World(Op::Mut(1, TA)),
                 EvOp::World(Op::Mut(2, TA)),
-                EvOp::World(Op::SetParent(2, 0)),
+                EvOp::World(Op::Mut(3, TA)),
+                EvOp::World(Op::ClearParent(1)),
                 EvOp::EmitS(SK::E1, Mode::Broadcast, None),
             ],
             rounds: if q { 4 } else { 5 },
@@ -595,6 +598,19 @@ pub fn cells(tier: Tier) -> Vec<CellPlan> {
             oracles: EvOracles { c10_groups: true, convergence: true, ..Default::default() },
             closure_rounds: 5,
         };
+        let mut c = c;
+        if max == 14 {
+            // a relation dissolved while the server is down: stop, clear, start, mutate both
+            c.alphabet = vec![
+                EvOp::Nop,
+                EvOp::StopServer,
+                EvOp::StartServerWith(0),
+                EvOp::WorldPair(Op::Mut(0, TA), Op::Mut(1, TA)),
+                EvOp::World(Op::Mut(1, TA)),
+                EvOp::World(Op::ClearParent(1)),
+                EvOp::EmitS(SK::E1, Mode::Broadcast, None),
+            ];
+        }
         v.push(plan(c, 0, 2.0));
     }
     // A related group with one member hidden from the client (blacklist): the visible members
